@@ -128,3 +128,34 @@ Proof.
   exists w, w'. split; [exact Hrun|]. split; [vm_compute in E; injection E as <-; reflexivity|]. split; [exact Hs|].
   vm_compute in E. injection E as <-. vm_compute in Hs. injection Hs as <-. vm_compute. reflexivity.
 Qed.
+
+(* the same after a move that C17's side condition attach_ok excludes (findings/C17-attach-keeps-stored-type.json): TP-ECUS of a
+   FLEXRAY-TP-CONFIG moved into a CAN-TP-CONFIG keeps its stored type (8232, 2216) although the destination lists the name with
+   type (8231, 519); the name is listed, so the sort of the whole tree still returns Ok *)
+Definition nv_hist2 : list op :=
+  [ OpNewModel; OpCreateFile 0 [102] 1048576;
+    OpCreateSub 0 5413;                     (* AR-PACKAGES            -> node 1 *)
+    OpCreateNamed 1 5250 [110; 49];         (* AR-PACKAGE "n1"        -> node 2 (SHORT-NAME 3) *)
+    OpCreateSub 2 3929;                     (* ELEMENTS               -> node 4 *)
+    OpCreateNamed 4 1495 [110; 50];         (* FLEXRAY-TP-CONFIG "n2" -> node 5 (SHORT-NAME 6) *)
+    OpCreateSub 5 88;                       (* TP-ECUS                -> node 7 *)
+    OpCreateSub 7 862;                      (* FLEXRAY-TP-ECU         -> node 8 *)
+    OpCreateNamed 4 298 [110; 51];          (* CAN-TP-CONFIG "n3"     -> node 9 (SHORT-NAME 10) *)
+    OpMove 9 7 ].
+Definition nv_final2 : res world := Eval vm_compute in Inv.run_ops RT tab_element tab_enum nv_check 1048576 [] nv_hist2 empty_world.
+
+Example never_fails_real_mismatched_move : exists w w' n9 n7,
+  Inv.run_ops RT tab_element tab_enum nv_check 1048576 [] nv_hist2 empty_world = Val w /\
+  w_nodes w 9 = Some n9 /\ w_nodes w 7 = Some n7 /\ In (CElem 7) (n_content n9) /\
+  n_type n7 = (8232, 2216) /\ find_sub_element RT (n_type n9) (n_name n7) MAXV = Val (Some ((8231, 519), [13])) /\
+  e_sort RT tab_element tab_attr tab_enum 3516 6311 0 w = Val (OK tt, w').
+Proof.
+  destruct nv_final2 as [w| |] eqn:E; try (vm_compute in E; discriminate).
+  assert (Hrun : Inv.run_ops RT tab_element tab_enum nv_check 1048576 [] nv_hist2 empty_world = Val w)
+    by (rewrite <- E; vm_cast_no_check (@eq_refl _ nv_final2)).
+  destruct (never_fails_histories_real_isort nv_check 1048576 3516 6311 nv_hist2 w Hrun 0) as (w' & Hs).
+  { vm_compute in E. injection E as <-. eexists. reflexivity. }
+  exists w, w'. vm_compute in E. injection E as E. eexists. eexists.
+  split; [exact Hrun|]. split; [rewrite <- E; reflexivity|]. split; [rewrite <- E; reflexivity|].
+  split; [cbn; auto|]. split; [reflexivity|]. split; [vm_compute; reflexivity|exact Hs].
+Qed.
